@@ -72,7 +72,18 @@ func classify(h histlib.History, at int, f *histlib.Fail) {
 			rolled = true
 		}
 	}
-	if !rolled || f.Verify == nil || !lastFrameCoincides(f.Verify) {
+	if !rolled {
+		return
+	}
+	// Once the chain has been continued across the rewritten frames, every later acknowledged sync of the
+	// same history restores from that chain: those failures are consequences of the recorded one.
+	for _, e := range f.Earlier {
+		if e == "rollback-same-generation-identical-last-frame" && (f.Sig == "ack-restore-differs" || f.Sig == "ack-restore-fails") {
+			f.Sig = e
+			return
+		}
+	}
+	if f.Verify == nil || !lastFrameCoincides(f.Verify) {
 		return
 	}
 	if f.Sig == "ack-restore-differs" || f.Sig == "ack-restore-fails" {
